@@ -41,7 +41,15 @@ def c07_case(draw):
     case = draw(gen.case(max_nodes=6, rare=False))
     if case["data"]["t"] == "None":
         case["data"] = dict(M.NODATA)
-    case["detail"] = draw(st.sampled_from(["hash", "repr", "context", "all", "hash,repr", "hash,context"]))
+    case["detail"] = draw(st.sampled_from(["hash", "repr", "context", "all", "hash,repr", "hash,context", "repr,context"]))
+    if draw(st.sampled_from([False] * 5 + [True])):
+        # a context value far longer than any display limit is rewritten with a change at its very end
+        m = M.run(case)
+        spots = [e["index"] for e in m["log"] if M.kind_of(e["in"]) == "Float"] + ([len(case["nodes"])] if m["ok"] and M.kind_of(m["data"]) == "Float" else [])
+        if spots:
+            case["nodes"].insert(draw(st.sampled_from(spots)), {"p": "VLongTailOp"})
+            if draw(st.booleans()):
+                case["ctx"]["long_key"] = [1.0] * 80 + [draw(st.sampled_from(gen.FLOATS))]
     return case
 
 
